@@ -53,7 +53,10 @@ def cfg(n):
     return ("cfg", n)
 
 
-ENUMS = {"Color": ["RED", "GREEN", "BLUE"], "Shade": ["RED", "DARK"]}
+ENUMS = {"Color": ["RED", "GREEN", "BLUE"], "Shade": ["RED", "DARK"], "Level": ["LOW", "HIGH"], "Mode": ["A", "B"]}
+# enumerations whose members are also ints / strings: the releases hash the member as that int / string (the type
+# dispatch of the hasher reaches int and str before Enum), which the pinned identifiers record
+ENUM_MIXIN = {"Level": ("int", {"LOW": 1, "HIGH": 2}), "Mode": ("str", {"A": "a", "B": "b"})}
 
 _LEAF = {
     "i": P("int"),
@@ -65,6 +68,9 @@ _LEAF = {
     "e": P(("enum", "Color"), default=E("Color", "RED")),
     "e2": P(opt(("enum", "Shade"))),
     "od": P(opt("int"), default=7),
+    "lv": P(opt(("enum", "Level"))),
+    "md": P(("enum", "Mode"), default=E("Mode", "A")),
+    "lvs": P(lst(("enum", "Level")), default=[]),
     "m": P("int", default=0, ignored=True),
     "o": P("str", default="opt", ignored=True),
     "p": P(opt("path"), ignored=True),
